@@ -32,6 +32,12 @@ CHECKS.update({
               note="independent table mc/ref608.py gated by hand-known facts and the repository's own test literals; CEA-608 defines glyphs, so look-alike code points pinned by the repo's tests are accepted as alternates", ref="3/C17"),
 })
 
+CHECKS.update({
+  "C05": dict(cat="exploration", tech="bounded-exhaustive enumeration of (document, writer configuration) pairs; round trip through the real writer and reader with per-value time oracle and snapshot comparison",
+              text="every document of the style grid, element-kind, time-value and parameter families under the stated writer configurations (time grid: every syntax x 7 frame rates) is written, parsed, re-read and compared: writer failures, XML-level element/text accounting, reader error logs, parameters, tree shape, per-value time exactness/bounded move/order, snapshots at every probe time",
+              note="numbers compared with relative tolerance 1e-5 (6 significant digits written); ids of content elements are not round-tripped by the reader and are left out; IMSC 'default' generic family == monospaceSerif", ref="3/C05"),
+})
+
 PENDING = {}
 
 
